@@ -33,7 +33,14 @@ TRUSTED = ['np.linalg.solve returns psi with lhm psi = rha (oracle of snm_estima
            'equals the exposure fit -- the run checks the fitted probabilities agree instead']
 
 IMPORTS = ['Zepid.Base.QSum', 'Zepid.Base.QUtil', 'Zepid.Base.Rows', 'Zepid.Model.Snm']
-SNMS = [('A', []), ('A + A:L0', ['L0']), ('A + A:W0', ['W0']), ('A + A:L0 + A:W0', ['L0', 'W0'])]
+SNMS = [('A', []), ('A + A:L0', ['L0']), ('A + A:W0', ['W0']), ('A + A:L0 + A:W0', ['L0', 'W0']),
+        # one-parameter models whose single term is a treatment-covariate product (no main effect): closed form only,
+        # the search solver does not accept a structural model without the main effect
+        ('A:L0', ['L0']), ('A:W0', ['W0'])]
+
+
+def has_main(f):
+    return 0 if f.startswith('A:') else 1
 
 
 # ------------------------------------------------------------------------------------------------ data
@@ -172,7 +179,7 @@ def run_closed(df, meta, snm_formula, mods):
         score = X.T @ (w * (np.asarray(d['A'], dtype=float) - pi))
         sscale = np.abs(X).T @ (w * np.maximum(pi, 1 - pi))
         return {'psi': psi, 'labels': list(g.psi_labels), 'A': d['A'].astype(int).tolist(), 'Y': [float(v) for v in d['Y']],
-                'V': [[1.0] + [float(d[m].iloc[i]) for m in mods] for i in range(len(d))], 'K': d['K'].astype(int).tolist(),
+                'V': [[1.0] * has_main(snm_formula) + [float(d[m].iloc[i]) for m in mods] for i in range(len(d))], 'K': d['K'].astype(int).tolist(),
                 'pi': pi.tolist(), 'w': w.tolist(), 'lhm': lhm.ravel().tolist(), 'rha': np.asarray(rha).ravel().tolist(),
                 'score_rel': float(np.max(np.abs(score) / np.maximum(sscale, 1e-300))), 'frame': d}
     except Exception as ex:   # noqa
@@ -233,13 +240,13 @@ def make_history(rng, kind, want_weights):
         df, meta = make_frame(rng)
         if meta['missing'] is None or meta['weights'] != want_weights:
             continue
-        if all(identifiable(df, m) for _, m in SNMS):
+        if all(identifiable(df, m) for _, m in SNMS[:4]):
             break
     covs = meta['covs']
     e0 = meta['emodel']
     others = [' + '.join(covs[:-1]) if len(covs) > 1 else '1', covs[0], e0 + ' + L0:W0']
     e1 = rng.choice([e for e in others if e != e0])
-    (f0, m0), (f1, m1) = rng.sample(SNMS, 2)
+    (f0, m0), (f1, m1) = rng.sample(SNMS[:4], 2)
     mm1, mm2 = rng.sample(['A + L0', 'A + W0', 'A + L0 + W0', 'A'], 2)
     stab = rng.random() < 0.5
     steps = [('exposure_model', e0), ('snm', f0)]
@@ -322,13 +329,13 @@ def rel(x, y):
 
 
 # ------------------------------------------------------------------------------------------------ the run
-def identifiable(df, mods):
+def identifiable(df, mods, main=1):
     """valid input only: among the treated complete rows the modifiers (1, mods) are linearly independent with room to
     spare (otherwise the structural parameters are not identified and lhm is singular by construction)"""
     c = df[df['Y'].notna() & (df['A'] == 1)]
     if len(c) < 3 * (len(mods) + 1):
         return False
-    V = np.column_stack([np.ones(len(c))] + [np.asarray(c[m], dtype=float) for m in mods])
+    V = np.column_stack([np.ones(len(c))] * main + [np.asarray(c[m], dtype=float) for m in mods])
     sv = np.linalg.svd(V, compute_uv=False)
     return bool(sv[-1] > 0.15 * sv[0] / (len(mods) + 1)) and all(c[m].nunique() > 1 for m in mods) and \
         all(min((c[m] == v).sum() for v in (0, 1)) >= 2 for m in mods if m.startswith('L'))
@@ -341,7 +348,7 @@ def gen_cases(ctx):
         f, mods = SNMS[i % len(SNMS)]
         for _ in range(50):
             df, meta = make_frame(ctx.rng)
-            if identifiable(df, mods):
+            if identifiable(df, mods, has_main(f)):
                 break
         cases.append((df, meta, f, mods))
     for i in range(n_sat):
@@ -361,7 +368,7 @@ def search_plan(ctx, cases):
     for i, case in enumerate(cases):
         df, meta, f, mods = case[:4]
         dim = len(mods) + 1
-        if len(case) > 4:
+        if len(case) > 4 or not has_main(f):
             continue
         if budget.get(dim, 0) > 0:
             budget[dim] -= 1
@@ -376,8 +383,8 @@ def check_cases(ctx, fails, cases, plan):
         steps = case[4] if len(case) > 4 else None
         cl = run_closed(df, meta, f, mods)          # a FRESH object with the (final) specification
         ctx.evaluations += 1
-        dim = len(mods) + 1
-        ctx.count('snm:%d-param' % dim)
+        dim = len(mods) + has_main(f)
+        ctx.count('snm:%d-param%s' % (dim, '' if has_main(f) else ' (product term only)'))
         ctx.count('outcome:' + meta['outcome'])
         ctx.count('weights:%s' % meta['weights'])
         ctx.count('missing:%s' % meta['missing'])
@@ -439,7 +446,7 @@ def check_history(ctx, fails, meta, f, mods, cl, hist, pay, r):
     """the object that went through the history must, at its last fit, be indistinguishable from a fresh object given
     the final specification: same psi, lhm / rha equal to the Coq-evaluated M / r on the fresh object's rows, weights
     and fitted propensities, and the Coq-evaluated estimating-equation residual ~0 at ITS psi"""
-    n, dim = meta['n'], len(mods) + 1
+    n, dim = meta['n'], len(mods) + has_main(f)
     cfg = ('GEstimationSNM(weights=%s) after %s  [final: snm=%r, exposure_model=%r, missing=%s %r]'
            % (meta['weights'], fmt_steps(hist['steps']), f, meta['emodel'], meta['missing'], meta.get('mmodel') if meta['missing'] else None))
     if 'error' in hist:
@@ -481,7 +488,7 @@ def check_history(ctx, fails, meta, f, mods, cl, hist, pay, r):
 
 
 def check_one(ctx, fails, df, meta, f, mods, cl, searches, pay, r):
-    n, dim = meta['n'], len(mods) + 1
+    n, dim = meta['n'], len(mods) + has_main(f)
     cfg = 'GEstimationSNM(snm=%r, exposure_model=%r, weights=%s, missing=%s, outcome=%s)' % (f, meta['emodel'], meta['weights'], meta['missing'], meta['outcome'])
     out, wavg, cells, sres = r[0], r[1], r[2], r[3]
     resid, rha, lhm = [[frac(x) for x in part] for part in out]
@@ -494,7 +501,7 @@ def check_one(ctx, fails, df, meta, f, mods, cl, searches, pay, r):
     ctx.sample({'config': cfg, 'rows': len(A), 'psi': cl['psi'], 'labels': cl['labels'],
                 'coq_residuals': [float(x) for x in resid], 'scale': scale}, cap=4)
     # labels: one parameter per SNM term, treatment first
-    want_labels = ['A'] + ['A:' + m for m in mods]
+    want_labels = ['A'] * has_main(f) + ['A:' + m for m in mods]
     if cl['labels'] != want_labels:
         fails.append((n, 'GEstimationSNM.psi_labels', '%s: psi_labels=%r, expected %r' % (cfg, cl['labels'], want_labels), pay))
     # oracle: the exposure GLM solves its weighted score equations
